@@ -771,7 +771,12 @@ impl Builtins {
                     }
                     elems.push(Rc::new(P(Int(num))));
                     pos_list.push(pos.clone());
-                    num += step;
+                    num = match num.checked_add(step) {
+                        Some(n) => n,
+                        // The next element would not fit in an i64 so it is
+                        // necessarily past the end of the range.
+                        None => break,
+                    };
                 }
             }
             _ => {
